@@ -35,7 +35,9 @@ APS_ACK_TIMEOUT = 120.0
 RETRY_DELAYS = [0.5, 1.0, 1.5]
 BUSY = {False: [0x72, 0xA1, 0x18], True: [0x0C03, 0x34, 0x19]}
 REFUSE = {False: [0x01, 0x66, 0x70, 0xEE], True: [0x01, 0x0C02, 0x02, 0x7777]}
-FAILCONF = {False: [0x66, 0x01, 0xEE], True: [0x0C02, 0x01, 0x7777]}
+# delivery-failure statuses a confirmation may carry: DELIVERY_FAILED, generic failure, an undefined code, MAC_INDIRECT_TIMEOUT
+# (what a sleepy end device produces), MAC_NO_ACK_RECEIVED
+FAILCONF = {False: [0x66, 0x01, 0xEE, 0x42, 0x40], True: [0x0C02, 0x01, 0x7777, 0x41, 0x39]}
 
 
 def dev_nwk(i):
@@ -122,7 +124,7 @@ class SendSim(simncp.SimNcp):
         return {"status": st_, "sequence": 7}
 
     def _confirm(self, i, conf, tag, dest, early=False):
-        fail = FAILCONF[self.v14][self.plan["reqs"][i].get("failcode", 0) % 3]
+        fail = FAILCONF[self.v14][self.plan["reqs"][i].get("failcode", 0) % 5]
         wm = self.plan["reqs"][i].get("wmtype", 0)  # outgoing-message type reported by a confirmation that is NOT this request's
         plan = {
             "success": [(0.02, dest, tag, 0)],
@@ -323,6 +325,20 @@ def check(plan) -> Result:
                 r.bad("C12:setup-interleaved-with-other-request", f"{name} of request {i} at {tm} inside set-up of request {open_req}; frames {frames}; plan {plan}")
                 break
             open_req = i
+    # a request that needs set-up repeats it for every attempt: each of its send frames directly follows set-up of its own
+    needs_setup = set()
+    seen_send = set()
+    for tm, name, i in frames:
+        if name.startswith("send"):
+            seen_send.add(i)
+        elif i not in seen_send:
+            needs_setup.add(i)
+    for k, (tm, name, i) in enumerate(frames):
+        if name.startswith("send") and i in needs_setup:
+            prev = frames[k - 1] if k else None
+            if prev is None or prev[2] != i or prev[1].startswith("send"):
+                r.bad("C12:attempt-sent-without-its-own-setup", f"send of request {i} at {tm} follows {prev}; frames {frames}; plan {plan}")
+                break
     starts = sorted(q["at"] for q in plan["reqs"])
     if len(plan["reqs"]) >= 2:
         flags.add("overlap")
@@ -367,7 +383,7 @@ def plans(draw, versions=(4, 8, 13, 14)):
                                              "wrong-dest-index", "wrong-dest-then-failure", "wrong-tag-then-failure", "wrong-then-right", "late-success"])),
                "wide": draw(st.integers(0, 4)),
                "wmtype": draw(st.sampled_from([0, 0, 1, 2, 3, 4, 9])),
-               "failcode": draw(st.integers(0, 2))}
+               "failcode": draw(st.integers(0, 4))}
         if kind == "uni-ext":
             req["in_table"] = draw(st.booleans())
         reqs.append(req)
